@@ -34,6 +34,10 @@ def pairs(ctx, want_kind=None, need_sv=True):
             # a corpus program that is meant to compile does not: surfaced by C-compile rule of the owning property
             ctx.note(f"target {m.crate_key} has {len(errs)} compile errors")
         g = G.GenItem(m, exp)
+        if getattr(m, "entry_points_via_cfg", False) and "src" in g.probes:
+            # cfg_attr(.., entry_points): the compiler evaluated the cfg before the first probe saw the item
+            head = g.probes["src"].split(" impl", 1)[0]
+            m.entry_points = "entry_points" in head
         if need_sv and g.sv is None:
             raise CheckError(f"{m.key}: no generated `sv` module found")
         n += 1
